@@ -657,6 +657,9 @@ class PooledJSONRPCServer(socketserver.ThreadingMixIn, SimpleJSONRPCServer):
         # Store the thread pool
         self.__request_pool = thread_pool
 
+        # Flag set while the serve_forever() loop is running
+        self.__serving = False
+
         # Prepare the server
         SimpleJSONRPCServer.__init__(
             self,
@@ -677,11 +680,26 @@ class PooledJSONRPCServer(socketserver.ThreadingMixIn, SimpleJSONRPCServer):
             self.process_request_thread, request, client_address
         )
 
+    def serve_forever(self, poll_interval=0.5):
+        """
+        Handles requests until shutdown() is called, keeping track of the
+        state of the serving loop
+        """
+        self.__serving = True
+        try:
+            SimpleJSONRPCServer.serve_forever(self, poll_interval)
+        finally:
+            self.__serving = False
+
     def server_close(self):
         """
         Clean up the server
         """
-        SimpleJSONRPCServer.shutdown(self)
+        if self.__serving:
+            # shutdown() waits for the serving loop to end: calling it when
+            # serve_forever() isn't running would block forever
+            SimpleJSONRPCServer.shutdown(self)
+
         SimpleJSONRPCServer.server_close(self)
         self.__request_pool.stop()
 
